@@ -26,11 +26,11 @@ type schedScenario struct {
 }
 
 type lookupObs struct {
-	reader    int
-	callV     int // writer version at call
-	retV      int // writer version at return
-	urls      []string
-	err       string
+	reader int
+	callV  int // writer version at call
+	retV   int // writer version at return
+	urls   []string
+	err    string
 }
 
 func schedExecute(sc schedScenario, out *[]lookupObs, versions *[][]string) {
@@ -232,6 +232,7 @@ func ReplaySchedule(r *mc.Run) bool {
 	if err := r.ReplayCase(&w); err != nil || w.Kind != "schedule" {
 		return false
 	}
+	mc.ReexecIn("VERIF_BIN_sched") // schedules only make sense in the overlay build
 	var obs []lookupObs
 	var versions [][]string
 	x, _ := mc.RunOne(w.Scenario.Choices, nil, 5000, nil, func() { obs = nil; versions = nil; schedExecute(w.Scenario, &obs, &versions) })
